@@ -1269,3 +1269,158 @@ func ruleReserve(r *Report) {
 	h.Check(ok, "(*column.Collection).next", r.P.Pos(fn.Pos()), "pick ≺ mark without releasing the mutex; returns the marked offset", "next() does not mark and return exactly the offset it picked within one critical section: two inserts can receive the same offset")
 	// findFreeIndex only returns offsets it believes free: not decided (bit arithmetic)
 }
+
+// rulePool (C02.pool): a pooled Txn is indistinguishable from a fresh one — acquire re-establishes
+// owner, logger and the "selection not set up" flag; initialize takes the selection from the
+// owner's fill list under the collection mutex exactly when it is not set up; bufferFor and
+// columnAt key their per-transaction caches by name.
+func rulePool(r *Report) {
+	h := r.Rule("C02.pool", "S+P", "a pooled transaction starts clean: acquire re-establishes owner, logger and setup=false; initialize clones the owner's fill list under the collection mutex exactly when the selection is not set up; bufferFor returns the transaction's one buffer per column name and columnAt the cached column of that name", 4)
+	if fn := r.Anchor("(*column.txnPool).acquire"); fn != nil {
+		st := fieldsStoredOn(fn, "column.Txn")
+		okSetup := false
+		for _, v := range st["setup"] {
+			if c, isC := v.(*ssa.Const); isC && c.Value != nil && c.Value.String() == "false" {
+				okSetup = true
+			}
+		}
+		okOwner := false
+		for _, v := range st["owner"] {
+			if sameExpr(v, fn.Params[1]) {
+				okOwner = true
+			}
+		}
+		okLogger := false
+		for _, v := range st["logger"] {
+			if fr, ok := loadedField(v); ok && fr.Struct == "column.Collection" && fr.Field == "logger" {
+				okLogger = true
+			}
+		}
+		h.Check(okSetup && okOwner && okLogger, "(*column.txnPool).acquire", r.P.Pos(fn.Pos()), "owner, logger, setup=false", "acquire does not re-establish owner, logger and setup=false on the pooled transaction: it starts with the previous user's selection, collection or logger")
+	}
+	if fn := r.Anchor("(*column.Txn).initialize"); fn != nil {
+		clones := callsWhere(fn, func(_ ssa.Instruction, cc *ssa.CallCommon) bool {
+			return methodOn(cc, "github.com/kelindar/bitmap", "Bitmap", "Clone")
+		})
+		ok := len(clones) == 1
+		if ok {
+			cc, _, _ := callCommon(clones[0])
+			src, okS := loadedField(cc.Args[0])
+			dst, okD := fieldOf(cc.Args[1])
+			ok = okS && okD && src.Struct == "column.Collection" && src.Field == "fill" && dst.Struct == "column.Txn" && dst.Field == "index"
+			// only when not set up; sets the flag afterwards
+			if ok {
+				ok = edgeGuarded(clones[0].Block(), func(c ssa.Value) (bool, bool) {
+					if fr, isF := loadedField(c); isF && fr.Struct == "column.Txn" && fr.Field == "setup" {
+						return true, false
+					}
+					return false, false
+				})
+			}
+			setTrue := false
+			for _, v := range fieldsStoredOn(fn, "column.Txn")["setup"] {
+				if c, isC := v.(*ssa.Const); isC && c.Value != nil && c.Value.String() == "true" {
+					setTrue = true
+				}
+			}
+			ok = ok && setTrue
+		}
+		h.Check(ok, "(*column.Txn).initialize", r.P.Pos(fn.Pos()), "!setup ⇒ index := clone(fill); setup = true", "initialize does not take the selection from the owner's fill list exactly when it is not set up")
+	}
+	byName := func(name, field, elemField string) {
+		fn := r.Anchor(name)
+		if fn == nil {
+			return
+		}
+		// a loop over txn.<field> comparing <elemField> with the name parameter, returning the element on equality
+		cmp := false
+		allInstrs(fn, func(ins ssa.Instruction) {
+			bo, ok := ins.(*ssa.BinOp)
+			if !ok || (bo.Op != token.EQL && bo.Op != token.NEQ) {
+				return
+			}
+			for _, pair := range [][2]ssa.Value{{bo.X, bo.Y}, {bo.Y, bo.X}} {
+				if !sameExpr(pair[1], fn.Params[1]) {
+					continue
+				}
+				if fr, isF := loadedField(pair[0]); isF && fr.Field == elemField && reachAvoiding(ins.Block(), ins.Block(), nil, nil) {
+					// the hit is decided by the name alone: the block that returns the element is
+					// the direct successor of this comparison
+					for _, ref := range *bo.Referrers() {
+						iff, isIf := ref.(*ssa.If)
+						if !isIf {
+							continue
+						}
+						hit := iff.Block().Succs[0]
+						if bo.Op == token.NEQ {
+							hit = iff.Block().Succs[1]
+						}
+						if _, isRet := hit.Instrs[len(hit.Instrs)-1].(*ssa.Return); isRet && len(hit.Preds) == 1 {
+							cmp = true
+						}
+					}
+				}
+			}
+		})
+		// the miss path appends to the cache
+		app := len(fieldsStoredOn(fn, "column.Txn")[field]) >= 1
+		h.Check(cmp && app, name, r.P.Pos(fn.Pos()), "lookup by name, append on miss", name+" does not find the transaction's entry by comparing its name with the requested name (or does not remember a new one): operations of one column are split over several buffers, or land in another column's")
+	}
+	byName("(*column.Txn).bufferFor", "updates", "Column")
+	byName("(*column.Txn).columnAt", "columns", "name")
+}
+
+// ruleBlockLoops (C04.blocks): the per-block read loops visit every block of the selection.
+func ruleBlockLoops(r *Report) {
+	h := r.Rule("C04.blocks", "P", "every per-block read loop (rangeRead, rangeReadPair, WithUnion) starts at block 0, advances by one and runs up to and including block len(selection)>>bitmapShift — the last, partially filled block included", 3)
+	bs, _ := r.P.ConstVal("column", "bitmapShift")
+	var shift int64
+	fmt.Sscanf(bs, "%d", &shift)
+	for _, name := range []string{"(*column.Txn).rangeRead", "(*column.Txn).rangeReadPair", "(*column.Txn).WithUnion"} {
+		fn := r.Anchor(name)
+		if fn == nil {
+			continue
+		}
+		ok := false
+		allInstrs(fn, func(ins ssa.Instruction) {
+			phi, isPhi := ins.(*ssa.Phi)
+			if !isPhi || !isNamed(phi.Type(), CommitPath, "Chunk") {
+				return
+			}
+			init, step := false, false
+			for _, e := range phi.Edges {
+				if c, isC := constInt(e); isC && c == 0 {
+					init = true
+				}
+				if bo, isB := e.(*ssa.BinOp); isB && bo.Op == token.ADD && bo.X == ssa.Value(phi) {
+					if one, isC := constInt(bo.Y); isC && one == 1 {
+						step = true
+					}
+				}
+			}
+			bound := false
+			for _, ref := range *phi.Referrers() {
+				bo, isB := ref.(*ssa.BinOp)
+				if !isB || bo.X != ssa.Value(phi) || bo.Op != token.LEQ {
+					continue
+				}
+				// limit = Chunk(len(txn.index) >> bitmapShift)
+				if sh, isS := strip(bo.Y).(*ssa.BinOp); isS && sh.Op == token.SHR {
+					if c, isC := constInt(sh.Y); isC && c == shift {
+						if ln, isL := sh.X.(*ssa.Call); isL {
+							if b, isBI := ln.Call.Value.(*ssa.Builtin); isBI && b.Name() == "len" {
+								if fr, isF := loadedField(ln.Call.Args[0]); isF && fr.Struct == "column.Txn" && fr.Field == "index" {
+									bound = true
+								}
+							}
+						}
+					}
+				}
+			}
+			if init && step && bound {
+				ok = true
+			}
+		})
+		h.Check(ok, name, r.P.Pos(fn.Pos()), "for block := 0; block <= len(index)>>bitmapShift; block++", "the per-block loop does not visit every block of the selection from 0 up to and including the last (partial) one: rows of the skipped block are neither filtered nor iterated")
+	}
+}
